@@ -119,6 +119,9 @@ Proof.
     rewrite mut_header_render by exact Hc.
     unfold ce_size. cbn [ce_ds ce_off]. rewrite <- Hs.
     destruct (chunk_ok_inv fl c Hc) as (A & _).
+    assert (Lb : zlen (render_chunk fl c ++ render_chunks fl cs) = csize fl c + zlen (render_chunks fl cs))
+      by (rewrite zlen_app, render_chunk_zlen by exact A; reflexivity).
+    bset (zlen (render_chunk fl c ++ render_chunks fl cs) <? csize fl c) false.
     rewrite zdrop_app_len by (rewrite render_chunk_zlen by exact A; reflexivity).
     rewrite IH by (assumption || lia). reflexivity.
 Qed.
